@@ -44,9 +44,11 @@ def probe_ok(data: bytes) -> bool:
 
 
 class Host:
-    def __init__(self, ip: str, datagram: bytes, *, listen_port: int = 6445, copies: int = 1) -> None:
+    def __init__(self, ip: str, datagram, *, listen_port: int = 6445, copies: int = 1) -> None:
+        """datagram: bytes, or a list of byte strings used round-robin for the copies."""
         self.ip = ip
-        self.datagram = datagram
+        self.datagrams = list(datagram) if isinstance(datagram, (list, tuple)) else [datagram]
+        self.datagram = self.datagrams[0]
         self.listen_port = listen_port
         self.copies = copies
         self.probes = 0
@@ -79,7 +81,7 @@ class Population:
             for i in triggered:
                 h = self.hosts[i]
                 for c in range(h.copies):
-                    transport.deliver(h.datagram, (h.ip, 6445 + c), self.t0 + (i * 4 + c) * self.gap)
+                    transport.deliver(h.datagrams[c % len(h.datagrams)], (h.ip, 6445 + c), self.t0 + (i * 4 + c) * self.gap)
             return
         # explicit global arrival order: deliver once every host that takes part has been triggered
         if not self.planned and all(h.answered for h in self.hosts):
@@ -89,4 +91,4 @@ class Population:
                 c = seen.get(i, 0)
                 seen[i] = c + 1
                 h = self.hosts[i]
-                transport.deliver(h.datagram, (h.ip, 6445 + c), self.t0 + k * self.gap)
+                transport.deliver(h.datagrams[c % len(h.datagrams)], (h.ip, 6445 + c), self.t0 + k * self.gap)
